@@ -28,6 +28,7 @@ pub enum Sz {
     Third,    // ~ page/3
     OneHalf,  // 1.5 pages: overflow chain
     Three,    // 3 pages
+    Ten,      // 10 pages: an overflow chain longer than a small cache
 }
 
 #[derive(Debug, Clone, PartialEq, Eq, Serialize, Deserialize)]
@@ -133,6 +134,7 @@ fn payload(page: usize, key: u32, sz: Sz, stamp: u32) -> Vec<u8> {
         Sz::Third => page / 3 - 96,
         Sz::OneHalf => page + page / 2,
         Sz::Three => 3 * page,
+        Sz::Ten => 10 * page,
     };
     let mut v = vec![0u8; len];
     for (i, b) in v.iter_mut().enumerate() {
